@@ -2,7 +2,7 @@
    BCase: interleaved Begin/End/Allow/Accept/Reject/advance events over named breakers and what
    lib/breaker did; PCase: one value of a finite error / status set and what the real
    benign-outcome predicate of an integration answered. *)
-From God Require Import Base.Prelude C09.RW C09.Spec C09.Integ C01.GenEnv C01.Spec.
+From God Require Import Base.Prelude C09.RW C09.Spec C09.Integ C01.GenEnv C01.Spec C01.Registry.
 From God Require Export C01.Model.
 From Coq Require Import Floats String.
 From GodGen Require C01_Gen.
@@ -33,7 +33,10 @@ Inductive case :=
 | BCase (evs : list xev) (rows : list (Z * Z * Z))     (* per event: code, accepts, total *)
 | PCase (which : nat) (arg : Z) (ok : bool)             (* 0 grpc, 1 sqlx, 2 redis, 3 http status (explicit),
                                                            5 server / 6 client breaker interceptor: code + 100*panic *)
-| HCase (shp : nat) (status code : Z) (ok : bool).      (* HTTP response shape through BreakerHandler: Code held by
+| HCase (shp : nat) (status code : Z) (ok : bool)
+| RCase (rows : list (list Z)).                         (* registry, concurrent first use of fresh names: per name
+                                                           [g; do-entrants; distinct breakers; lost marks; probe via
+                                                           another handle rejected; probe via Do(name) rejected; forced] *)      (* HTTP response shape through BreakerHandler: Code held by
                                                            WithCodeResponseWriter, never cut off in 200 requests? *)
 
 Definition to_ev (x : xev) : nat * ev :=
@@ -114,12 +117,33 @@ Definition hshape (k : nat) (st : Z) : shape :=
   end.
 Definition hguard (k : nat) : bool := Nat.eqb k 5.
 
+(* registry stream: g goroutines (and the driver's final Get) make their first use of one name in the
+   forced interleaving: every RLock-read first (all miss), then every write-locked section *)
+Definition reg_ids (g : nat) : list nat :=
+  let s := Registry.run true (Registry.init (repeat 0%nat (S g))) (seq 0 g ++ seq 0 g ++ [g; g]) in
+  flat_map (fun tp => match snd (snd tp) with Done b => [b] | _ => [] end) (thr s).
+Fixpoint ndistinct (l : list nat) : nat :=
+  match l with [] => 0%nat | a :: r => if existsb (Nat.eqb a) r then ndistinct r else S (ndistinct r) end.
+
+Definition r_row_ok (row : list Z) : bool :=
+  match row with
+  | [g; ndo; distinct; miss; pb; pd; forced] =>
+      let one := Nat.eqb (ndistinct (reg_ids (Z.to_nat g))) 1 in
+      (* one breaker: the do-entrants' marks are all in it, and 50 failures recorded through any handle are
+         seen through any other: coin 0 is below the positive drop ratio *)
+      let n2 := excess2 ndo (ndo + 50) in
+      let rejected := (0 <? n2) && coin_lt_f 0 n2 (ndo + 50 + 1) in
+      one && (distinct =? 1) && (miss =? 0) && (pb =? (if rejected then 1 else 0)) && (pd =? (if rejected then 1 else 0))
+  | _ => false
+  end.
+
 Definition model_ok (c : case) : bool :=
   match c with
   | BCase evs rows => b_run [] t0 evs rows
   | PCase which arg ok => Bool.eqb (pred which arg) ok
   | HCase k st code ok =>
       (code =? http_code (hguard k) (hshape k st)) && Bool.eqb ok (http_mark (hguard k) (hshape k st))
+  | RCase rows => forallb r_row_ok rows
   end.
 
 (* ---------- the property on the observations ---------- *)
@@ -196,4 +220,11 @@ Definition spec_ok (c : case) : bool :=
   | HCase k st code ok =>
       (* the status the client gets: written explicitly, else the implicit 200; a recovered panic is a 500 *)
       if http_status (hguard k) (hshape k st) <? 500 then ok else negb ok
+  | RCase rows =>
+      (* the same name is the same breaker for every goroutine, also at the concurrent first use: one identity,
+         no outcome lost, failures recorded through one handle cut the name off through every other *)
+      forallb (fun row => match row with
+                          | [g; ndo; distinct; miss; pb; pd; forced] => (distinct =? 1) && (miss =? 0) && (pb =? 1) && (pd =? 1)
+                          | _ => false
+                          end) rows
   end.
